@@ -26,19 +26,84 @@ Lemma lor_comm_add lo hi n : 0 <= n -> 0 <= lo < 2 ^ n -> Z.lor lo (Z.shiftl hi 
 Proof. intros; rewrite Z.lor_comm; apply lor_add_disjoint; lia. Qed.
 
 (* ------------------------------------------------------------------ characterisation of the generated definitions *)
+(* Shape-independent treatment of the REGENERATED helpers: unfold everything (lets included), bring shifts of 1 and masks to
+   arithmetic form, decide the sign bit of the masked value semantically (case split on u < 2^(w-1)) and rewrite EVERY way of testing
+   it (bit w-1 by shift-and-mask, by and-with-2^(w-1), by testbit) to its value; closed comparisons then compute.  No step names a
+   let-bound variable or relies on where the code places its `if`. *)
+Lemma land_mask x n : 0 <= n -> Z.land x (2 ^ n - 1) = x mod 2 ^ n.
+Proof. intros. replace (2 ^ n - 1) with (Z.ones n) by (rewrite Z.ones_equiv; lia). apply Z.land_ones; lia. Qed.
+
+Lemma signbit_lo u w : 1 <= w -> 0 <= u < 2 ^ (w - 1) ->
+  Z.land (Z.shiftr u (w - 1)) 1 = 0 /\ Z.land u (2 ^ (w - 1)) = 0 /\ Z.testbit u (w - 1) = false /\ u / 2 ^ (w - 1) = 0.
+Proof.
+  intros Hw Hu. pose proof (pow2_split w ltac:(lia)).
+  assert (T : Z.testbit u (w - 1) = false) by (rewrite testbit_high by lia; lia).
+  repeat split; auto.
+  - change (Z.land (Z.shiftr u (w - 1)) 1) with (bitZ u (w - 1)). rewrite bitZ_b2z, T by lia. reflexivity.
+  - rewrite land_pow2, T by lia. reflexivity.
+  - apply Z.div_small; lia.
+Qed.
+
+Lemma signbit_hi u w : 1 <= w -> 2 ^ (w - 1) <= u < 2 ^ w ->
+  Z.land (Z.shiftr u (w - 1)) 1 = 1 /\ Z.land u (2 ^ (w - 1)) = 2 ^ (w - 1) /\ Z.testbit u (w - 1) = true /\ u / 2 ^ (w - 1) = 1.
+Proof.
+  intros Hw Hu. pose proof (pow2_split w ltac:(lia)). pose proof (pow2_pos (w - 1) ltac:(lia)).
+  assert (T : Z.testbit u (w - 1) = true) by (rewrite testbit_high by lia; lia).
+  repeat split; auto.
+  - change (Z.land (Z.shiftr u (w - 1)) 1) with (bitZ u (w - 1)). rewrite bitZ_b2z, T by lia. reflexivity.
+  - rewrite land_pow2, T by lia. reflexivity.
+  - symmetry. apply Z.div_unique with (u - 2 ^ (w - 1)); lia.
+Qed.
+
+(* arithmetic normal form of a generated definition (after `unfold`) *)
+Ltac norm_gen :=
+  unfold py_shl, py_shr, py_truth, mask, trunc in *; cbv zeta;
+  rewrite ?Z.shiftl_1_l; rewrite ?land_mask by lia.
+
+(* closed tests on constants and on 2^(w-1) *)
+Ltac decide_tests P :=
+  rewrite ?Z.eqb_refl; rewrite ?Z.mod_0_l by lia; rewrite ?Z.shiftl_0_l, ?Z.shiftr_0_l, ?Z.lor_0_r, ?Z.lor_0_l, ?Z.add_0_r, ?Z.mul_0_l;
+  repeat match goal with
+         | |- context [?a >? ?b] => let E := fresh in assert (E : (a >? b) = true) by lia; rewrite E; clear E
+         | |- context [?a >? ?b] => let E := fresh in assert (E : (a >? b) = false) by lia; rewrite E; clear E
+         | |- context [?a <? ?b] => let E := fresh in assert (E : (a <? b) = true) by lia; rewrite E; clear E
+         | |- context [?a <? ?b] => let E := fresh in assert (E : (a <? b) = false) by lia; rewrite E; clear E
+         | |- context [?a =? ?b] => let E := fresh in assert (E : (a =? b) = true) by lia; rewrite E; clear E
+         | |- context [?a =? ?b] => let E := fresh in assert (E : (a =? b) = false) by lia; rewrite E; clear E
+         | |- context [?a >=? ?b] => let E := fresh in assert (E : (a >=? b) = true) by lia; rewrite E; clear E
+         | |- context [?a >=? ?b] => let E := fresh in assert (E : (a >=? b) = false) by lia; rewrite E; clear E
+         | |- context [?a <=? ?b] => let E := fresh in assert (E : (a <=? b) = true) by lia; rewrite E; clear E
+         | |- context [?a <=? ?b] => let E := fresh in assert (E : (a <=? b) = false) by lia; rewrite E; clear E
+         end;
+  cbv beta iota zeta; cbn [negb andb orb];
+  rewrite ?Z.shiftl_0_l, ?Z.shiftr_0_l, ?Z.lor_0_r, ?Z.lor_0_l, ?Z.add_0_r, ?Z.mul_0_l.
+
+(* case split on the sign bit of u (0 <= u < 2^w); in each branch every form of the test is replaced by its value *)
+Ltac sign_cases u w Hw Hr :=
+  let L := fresh "L" in let F := fresh "F" in
+  pose proof (pow2_split w ltac:(lia)); pose proof (pow2_pos (w - 1) ltac:(lia));
+  destruct (Z.lt_ge_cases u (2 ^ (w - 1))) as [L | L];
+  [ destruct (signbit_lo u w Hw ltac:(lia)) as (F & ?F & ?F & ?F)
+  | destruct (signbit_hi u w Hw ltac:(lia)) as (F & ?F & ?F & ?F) ];
+  repeat match goal with
+         | E : Z.land (Z.shiftr u (w - 1)) 1 = _ |- _ => rewrite ?E; clear E
+         | E : Z.land u (2 ^ (w - 1)) = _ |- _ => rewrite ?E; clear E
+         | E : Z.testbit u (w - 1) = _ |- _ => rewrite ?E; clear E
+         | E : u / 2 ^ (w - 1) = _ |- _ => rewrite ?E; clear E
+         end;
+  decide_tests tt.
+
 Lemma signed_to_c2_char v w : 0 <= w -> IntegerHelper_signed_to_c2 v w = c2_encode w v.
-Proof. intros; unfold IntegerHelper_signed_to_c2, c2_encode; cbv zeta. apply (trunc_mod w v); lia. Qed.
+Proof.
+  intros Hw. unfold IntegerHelper_signed_to_c2, c2_encode. norm_gen.
+  try reflexivity; rewrite ?Z.mod_mod by (apply Z.pow_nonzero; lia); reflexivity.
+Qed.
 
 Lemma c2_to_signed_char v w : 1 <= w -> IntegerHelper_c2_to_signed v w = c2_decode w v.
 Proof.
-  intros Hw. unfold IntegerHelper_c2_to_signed, c2_decode; cbv zeta.
-  change (Z.land v (py_shl 1 w - 1)) with (trunc w v). rewrite trunc_mod by lia.
-  pose proof (mod_pow2_range w v ltac:(lia)) as Hr. set (u := v mod 2 ^ w) in *.
-  rewrite !shl1 by lia. rewrite land_pow2 by lia. rewrite testbit_high by lia.
-  unfold sgn. pose proof (pow2_pos (w - 1) ltac:(lia)).
-  destruct (Z.leb_spec (2 ^ (w - 1)) u); destruct (Z.ltb_spec u (2 ^ (w - 1))); try lia.
-  - replace (2 ^ (w - 1) >? 0) with true by lia. reflexivity.
-  - reflexivity.
+  intros Hw. unfold IntegerHelper_c2_to_signed, c2_decode, sgn. norm_gen.
+  pose proof (mod_pow2_range w v ltac:(lia)) as Hr. set (u := v mod 2 ^ w) in *. clearbody u.
+  sign_cases u w Hw Hr; lia.
 Qed.
 
 Lemma c2_decode_range w u : 1 <= w -> - 2 ^ (w - 1) <= c2_decode w u < 2 ^ (w - 1).
@@ -85,22 +150,18 @@ Proof. intros; rewrite c2_to_signed_char by lia; split; [apply c2_decode_range |
 (* ------------------------------------------------------------------ signExtend *)
 Lemma signExtend_char v w nw : 1 <= w -> w <= nw -> signExtend v w nw = sign_extend_spec v w nw.
 Proof.
-  intros Hw Hnw. unfold signExtend, sign_extend_spec, c2_encode, c2_decode; cbv zeta.
-  change (Z.land v (py_shl 1 w - 1)) with (trunc w v). rewrite trunc_mod by lia.
-  pose proof (mod_pow2_range w v ltac:(lia)) as Hr. set (u := v mod 2 ^ w) in *.
-  change (Z.land (py_shr u (w - 1)) 1) with (bitZ u (w - 1)). rewrite bitZ_b2z by lia.
-  rewrite testbit_high by lia. rewrite shl1 by lia.
-  pose proof (pow2_split w ltac:(lia)) as Hs. pose proof (pow2_pos (w - 1) ltac:(lia)) as Hp.
+  intros Hw Hnw. unfold signExtend, sign_extend_spec, c2_encode, c2_decode, sgn. norm_gen.
+  pose proof (mod_pow2_range w v ltac:(lia)) as Hr. set (u := v mod 2 ^ w) in *. clearbody u.
   pose proof (pow2_le w nw ltac:(lia)) as Hle.
   assert (Hnwp : 2 ^ nw = 2 ^ (nw - w) * 2 ^ w) by (rewrite <- Z.pow_add_r by lia; f_equal; lia).
   pose proof (pow2_pos (nw - w) ltac:(lia)) as Hp2.
-  unfold sgn, py_shl. destruct (Z.leb_spec (2 ^ (w - 1)) u) as [Hge | Hlt]; cbn [b2z Z.eqb Pos.eqb]; clearbody u.
-  - destruct (Z.ltb_spec u (2 ^ (w - 1))); [lia|].
-    rewrite lor_comm_add by lia.
+  sign_cases u w Hw Hr.
+  - (* sign bit clear: the masked value itself *)
+    symmetry; apply Z.mod_small; lia.
+  - (* sign bit set: nw - w ones above the masked value *)
+    rewrite ?lor_comm_add by lia; rewrite ?lor_add_disjoint by lia.
     set (A := 2 ^ (nw - w)) in *. set (B := 2 ^ w) in *. rewrite Hnwp.
     apply Z.mod_unique with (-1); [left; nia | ring].
-  - destruct (Z.ltb_spec u (2 ^ (w - 1))); [|lia].
-    rewrite Z.shiftl_0_l, Z.lor_0_r. symmetry; apply Z.mod_small; lia.
 Qed.
 
 (* ------------------------------------------------------------------ FixedPoint on raw encodings *)
